@@ -1602,3 +1602,148 @@ func sameBufferChain(a, b ssa.Value) bool {
 	}
 	return false
 }
+
+func init() {
+	reg := registry["C08"]
+	reg.Meta.Rules["C08.9"] = "a filter hands out its result in a buffer nobody else holds: Apply/Remove of every writer-side filter and every reader-side decoder returns its input, a part of it, or a buffer made in that call - never a buffer kept in the filter's state or in a package variable (the next chunk would overwrite the encoded bytes of the previous one)"
+	reg.Meta.Rules["C08.10"] = "the inflate output limit is the global chunk limit; if it is made to depend on the stored size, the factor is at least 1032 (the largest expansion a deflate stream can reach), so that no chunk the encoder produced is rejected"
+	reg.Rules = append(reg.Rules, func(c *Ctx, r *Result) {
+		// ---- C08.9
+		var stateful func(v ssa.Value, d int) (bool, string)
+		stateful = func(v ssa.Value, d int) (bool, string) {
+			if d > 8 {
+				return false, ""
+			}
+			switch x := v.(type) {
+			case *ssa.Slice:
+				return stateful(x.X, d+1)
+			case *ssa.Convert:
+				return stateful(x.X, d+1)
+			case *ssa.ChangeType:
+				return stateful(x.X, d+1)
+			case *ssa.Phi:
+				for _, e := range x.Edges {
+					if b, w := stateful(e, d+1); b {
+						return b, w
+					}
+				}
+			case *ssa.UnOp:
+				if x.Op == token.MUL {
+					if f, _ := fieldOfAddr(x.X); f != nil {
+						return true, "field " + f.Name()
+					}
+					if g, ok := x.X.(*ssa.Global); ok {
+						return true, "package variable " + g.Name()
+					}
+					if ia, ok := x.X.(*ssa.IndexAddr); ok {
+						return stateful(ia.X, d+1)
+					}
+				}
+			case *ssa.Global:
+				return true, "package variable " + x.Name()
+			case *ssa.Call:
+				if b, ok := x.Call.Value.(*ssa.Builtin); ok && b.Name() == "append" {
+					return stateful(x.Call.Args[0], d+1)
+				}
+			}
+			return false, ""
+		}
+		n := 0
+		for _, fn := range c.LibFuncs() {
+			pk := shortPkg(fnPkgPath(fn))
+			isFilter := false
+			switch {
+			case pk == "writer" && fn.Signature.Recv() != nil && (fn.Name() == "Apply" || fn.Name() == "Remove") && strings.Contains(c.Name(fn), "Filter"):
+				isFilter = true
+			case pk == "core" && strings.HasPrefix(fn.Name(), "apply") && fn.Signature.Results().Len() == 2:
+				isFilter = true
+			}
+			if !isFilter || fn.Blocks == nil || fn.Signature.Results().Len() < 1 || !isByteSlice(fn.Signature.Results().At(0).Type()) {
+				continue
+			}
+			for _, ret := range successReturns(fn) {
+				n++
+				bad, what := stateful(retOperand(ret, 0), 0)
+				r.Check(!bad, "C08.9", c.Name(fn)+"#result-not-shared-state", c.InstrPos(ret), "the returned bytes are the input, part of it, or a buffer made in this call (a result in shared state - "+what+" - would be overwritten by the next call while the caller still holds it)")
+			}
+		}
+		if n < 10 {
+			r.Errorf("C08.9: only %d filter result returns found", n)
+		}
+		// ---- C08.10
+		fn := c.Fn(r, "core.applyDeflate")
+		if fn == nil {
+			return
+		}
+		found := false
+		for _, site := range callsIn(fn) {
+			call, ok := site.(*ssa.Call)
+			if !ok {
+				continue
+			}
+			f := call.Call.StaticCallee()
+			if f == nil || f.Pkg == nil || f.Pkg.Pkg.Path() != "io" || f.Name() != "LimitReader" {
+				continue
+			}
+			found = true
+			ok2, why := true, "constant limit"
+			seen := map[ssa.Value]bool{}
+			var walk func(v ssa.Value, d int)
+			walk = func(v ssa.Value, d int) {
+				if seen[v] || d > 10 {
+					return
+				}
+				seen[v] = true
+				switch x := v.(type) {
+				case *ssa.Const:
+				case *ssa.Convert:
+					walk(x.X, d+1)
+				case *ssa.Phi:
+					for _, e := range x.Edges {
+						walk(e, d+1)
+					}
+				case *ssa.BinOp:
+					if x.Op == token.MUL {
+						kx, okx := constInt(x.X)
+						ky, oky := constInt(x.Y)
+						switch {
+						case oky && len(dataParamsOpt(x.X, true)) > 0:
+							if ky < 1032 {
+								ok2, why = false, "limit = stored size * "+itoa(int(ky))
+							} else {
+								why = "limit includes stored size * " + itoa(int(ky))
+							}
+							return
+						case okx && len(dataParamsOpt(x.Y, true)) > 0:
+							if kx < 1032 {
+								ok2, why = false, "limit = stored size * "+itoa(int(kx))
+							} else {
+								why = "limit includes stored size * " + itoa(int(kx))
+							}
+							return
+						}
+					}
+					walk(x.X, d+1)
+					walk(x.Y, d+1)
+				case *ssa.Call:
+					if b, isB := x.Call.Value.(*ssa.Builtin); isB && (b.Name() == "len" || b.Name() == "cap") {
+						ok2, why = false, "the limit depends on the stored size without a factor" // len(data) alone: expansion factor 1
+						return
+					}
+					for _, a := range x.Call.Args {
+						walk(a, d+1)
+					}
+				default:
+					if len(dataParams(v)) > 0 {
+						ok2, why = false, "the limit depends on the input in a way that is not recognised"
+					}
+				}
+			}
+			walk(call.Call.Args[1], 0)
+			r.Check(ok2, "C08.10", c.Name(fn)+"#inflate-limit-admits-every-encoded-chunk", c.InstrPos(call), why+" (a deflate stream can expand up to 1032:1; go's zlib reaches more than 1024:1 on constant data)")
+		}
+		if !found {
+			r.Undec("C08.10", c.Name(fn)+"#inflate-limit-admits-every-encoded-chunk", c.Pos(fn.Pos()), "no io.LimitReader in applyDeflate")
+		}
+	})
+}
